@@ -19,7 +19,7 @@ CHECKS = {
             "5/C02"),
     "C03": ("exploration",
             "Hypothesis RuleBasedStateMachine over one object against a dict model (values, modes, rangelist and list contents); enumerated solution sets per call",
-            "Rules assign fields, toggle rand_mode, edit a mutable rangelist and a non-random list, and call randomize / randomize_with / vsc.randomize / vsc.randomize_with incl. free-standing calls over field subsets; after every call non-random fields must read the model's value (success or failure), the result must satisfy the reference under the CURRENT constants and contents, and SolveFailure iff the enumerated set is empty.",
+            "Rules assign fields, toggle rand_mode, edit a mutable rangelist and a non-random list (both also used inside foreach bodies, over a random and a non-random list), and call randomize / randomize_with / vsc.randomize / vsc.randomize_with incl. free-standing calls over field subsets; after every call non-random fields must read the model's value (success or failure), the result must satisfy the reference under the CURRENT constants and contents, and SolveFailure iff the enumerated set is empty.",
             "rand_mode is driven on scalar fields only; values of random fields after a failed call are not compared.",
             "5/C03"),
     "C20": ("exploration",
@@ -49,17 +49,17 @@ CHECKS = {
             "5/C15"),
     "C06": ("exploration",
             "generated call histories over instance populations; enumerated reference with dynamic references expanded per instance; pinned probes for 'no trace' and binding",
-            "A generated class with two dynamic blocks that read a per-instance constant; histories create instances before/after the target and call randomize_with with plain constraints and Boolean combinations (| & ~) of dynamic references, also through list elements of a holder; every result must lie in class AND this call's inline set evaluated on this very instance; probes check that earlier inline sets leave no trace and that referenced blocks bind to the right object.",
+            "A generated class with two dynamic blocks that read a per-instance constant (one may hold a foreach over the instance's editable non-random list); histories edit that list, create instances before/after the target and call randomize_with with plain constraints and Boolean combinations (| & ~) of dynamic references, also through list elements of a holder; every result must lie in class AND this call's inline set evaluated on this very instance; probes check that earlier inline sets leave no trace and that referenced blocks bind to the right object.",
             "Dynamic blocks are referenced from inline blocks only.",
             "5/C06"),
     "C07": ("exploration",
             "generated class hierarchies, instance populations and constraint_mode toggle histories against a per-instance enabled-block model; pinned probe pairs per block",
-            "Hierarchies with overridden block names, instances top-level / nested / in lists, toggles interleaved with calls and later creations; results must lie in the enumerated set of the most-derived enabled blocks of that very instance; an assignment violating only block B is accepted iff B is off for that instance, probed on every live instance.",
+            "Hierarchies with overridden block names, instances top-level / nested / in lists, toggles after construction and at the end of the constructor (relax-in-new idiom), interleaved with calls and later creations; results must lie in the enumerated set of the most-derived enabled blocks of that very instance; an assignment violating only block B is accepted iff B is off for that instance, probed on every live instance.",
             "Nested and list instances are toggled through the instance object; every block references a field.",
             "5/C07"),
     "C08": ("exploration",
             "Hypothesis-generated object trees flattened to path-keyed reference programs; enumerated truth; pinned probes per flattened statement",
-            "Trees with rand_attr/attr sub-objects, structurally identical siblings with distinguishing parent constraints, random and non-random object lists, cross-level constraints through paths and indices, violated own blocks on non-random sub-objects; results and two-directional pins are judged on the flattened program in which a sub-object's blocks count iff its whole ancestor chain is random. A sub-domain uses lists holding subclass instances.",
+            "Trees with rand_attr/attr sub-objects, structurally identical siblings with distinguishing parent constraints, random and non-random object lists, cross-level constraints through paths and indices, violated own blocks on non-random sub-objects; results and two-directional pins are judged on the flattened program in which a sub-object's blocks count iff its whole ancestor chain is random. Sub-domains: lists holding subclass instances; lists of objects that hold ragged lists of objects reached through two foreach indices, a subscript by a non-random field that changes between calls, conditions on elements of a non-random object list.",
             "Bit-select f[i] through a list index is not generated (the DSL reads it as an array subscript); subclass elements that shift inherited field indices are a recorded finding.",
             "5/C08"),
     "C17": ("exploration",
@@ -69,7 +69,7 @@ CHECKS = {
             "5/C17"),
     "C09": ("exploration",
             "generated scenarios executed in fresh child processes under a variant matrix (hash seed x global seed x unrelated activity x diagnostics), traces compared; generated snapshot/restore histories against recorded sequences",
-            "Metamorphic: the same scenario must give the same value trace under every variant (quick: baseline + 6 variants covering every level of every factor; thorough: the full 119-cell matrix sliced over shards). Snapshot histories check get_randstate independence, set_randstate copying and exact replay.",
+            "Metamorphic: the same scenario (explicit RandState built with mkFromSeed(n) or mkFromSeed(n, string), or the global seed) must give the same value trace under every variant (quick: baseline + 6 variants covering every level of every factor; thorough: the full 119-cell matrix sliced over shards). Snapshot histories check get_randstate independence, set_randstate copying and exact replay.",
             "Memory layout is approximated by hash-seed variation and allocation churn; a failing call is compared as 'failed' regardless of exception type.",
             "5/C09"),
     "C16": ("fault_enumeration",
@@ -84,7 +84,7 @@ CHECKS = {
             "5/C10"),
     "C11": ("exploration",
             "Hypothesis-generated crosses over disjoint-bin coverpoints with gated sample sequences; reference = row-major product model",
-            "Generated covergroups with 2-3 coverpoints of pairwise disjoint bins (single, array, auto, gaps), a cross over 2-3 of them, iff on coverpoints and cross; bin count, names and order against the product of the coverpoints' bins; after every sample exactly the combination bin increments iff all gates hold and every coverpoint hit.",
+            "Generated covergroups with 2-3 coverpoints of pairwise disjoint bins (single, array, auto, wildcard bins over binary-prefix blocks, gaps), a cross over 2-3 of them, iff on coverpoints and cross; bin count, names and order against the product of the coverpoints' bins; after every sample exactly the combination bin increments iff all gates hold and every coverpoint hit.",
             "Coverpoint bins are disjoint by construction; cross names are compared against the coverpoints' own bin names.",
             "5/C11"),
     "C12": ("exploration",
